@@ -19,6 +19,12 @@ type Case struct {
 	Msg   []byte
 	Fin   int      // 0 Msg 1 Send(only with empty msg) 2 Msgf 3 MsgFunc
 	Pre   *Prelude // filtered events started before this one (not part of the model's case)
+	// Entry: how the event is started (all of them are the same event for the model): 0 WithLevel(level); 1 the level's
+	// own method (Trace() .. Error(), Log() for NoLevel); 2 the io.Writer bridge Logger.Write (NoLevel, no fields, Msg);
+	// 3 / 4 Logger.Print / Printf (Debug, no fields).  See EntryUsed.
+	Entry int
+	// Root: 0 New(w); 1 Nop().Output(w) - Disabled from the start, a descendant is re-enabled by Level() (Step.Mute)
+	Root int
 }
 
 type Gen struct {
